@@ -281,11 +281,63 @@ type vWorld struct {
 	clockFn func(w *vWorld) int64
 	inv     *vClosure
 	log     []string // per-operation observation log
+	seg     []string
 }
 
 func (w *vWorld) record(s string) {
 	w.log = append(w.log, s)
+	w.seg = append(w.seg, s)
 	verifObserve(w.name + ":" + s)
+}
+
+// takeSeg returns the records written since the last call, with the
+// execution lines sorted (execution order inside one operation is
+// unspecified) and joined.
+func (w *vWorld) takeSeg(withExecs bool) string {
+	c, e := w.takeSeg2()
+	if withExecs {
+		return c + e
+	}
+	return c
+}
+
+// takeSeg2 returns the verdict part and the (sorted) execution part of the
+// records written since the last call.
+func (w *vWorld) takeSeg2() (string, string) {
+	withExecs := true
+	seg := w.seg
+	w.seg = nil
+	var execs []string
+	out := ""
+	for _, l := range seg {
+		if len(l) > 0 && l[0] == ' ' {
+			if withExecs {
+				execs = append(execs, l)
+			}
+			continue
+		}
+		out += l + "|"
+	}
+	for a := 1; a < len(execs); a++ {
+		for b := a; b > 0 && execs[b] < execs[b-1]; b-- {
+			execs[b], execs[b-1] = execs[b-1], execs[b]
+		}
+	}
+	ex := ""
+	for _, e := range execs {
+		ex += e
+	}
+	return out, ex
+}
+
+// vIsOK reports whether a verdict segment describes a successful Invoke.
+func vIsOK(seg string) bool {
+	for i := 0; i+4 <= len(seg); i++ {
+		if seg[i:i+4] == ":ok:" {
+			return true
+		}
+	}
+	return false
 }
 
 func vNewWorld(name string, opts ...Option) *vWorld {
